@@ -7,7 +7,7 @@ from props import luagen
 from props import mincommon as mc
 
 ID = 'C19'
-GEN_FILES = ['T_lexer', 'T_luanames', 'T_minifier', 'T_minwiring_lua', 'T_minwiring_tool', 'T_minwiring_build']
+GEN_FILES = ['T_lexer', 'T_luanames', 'T_minifier', 'T_minifier_p8', 'T_minwiring_lua', 'T_minwiring_tool', 'T_minwiring_build']
 COQ_PROPERTY = 'theories/Properties/C19.vo'
 COQ_EXTRA = []
 MODEL = ('ExC01', 'c01_main.ml')
